@@ -264,7 +264,9 @@ func NewWithABI(cfg Config, abi *ABI) (*Node, error) {
 }
 
 func (n *Node) open() error {
-	var opts *pebble.Options
+	// small memtables: lisk-engine's db.IterateRange leaks its pebble iterator, which pins the
+	// memtable arena of every node the harness ever opened (4 MB each by default)
+	opts := &pebble.Options{MemTableSize: 512 << 10}
 	if n.Cfg.PebbleOpts != nil {
 		o := *n.Cfg.PebbleOpts
 		opts = &o
